@@ -207,6 +207,9 @@ func init() {
 	})
 }
 
+// ids built from the atoms a, b, c
+var c18composed = []string{"a", "b", "c", "a-b", "b-a", "a-c", "c-a", "b-c", "c-b", "a-a", "b-b", "a-b-c", "a-b-a", "b-a-b", "c-a-b", "b-c-a", "a-a-b", "a-b-b", "b-b-a", "b-a-a", "a_b", "b_a", "a-b_c", "a_b-c", "ab", "ba", "a-", "b-", "a--b", "_a"}
+
 var c18names = []string{"a", "b", "c", "d", "e"}
 
 // spell varies the letter case of a needs entry deterministically.
@@ -390,16 +393,29 @@ func TestC18(t *testing.T) {
 		r.Check(t, "random-large", hx.N(300, 4000), func(rt *rapid.T) {
 			n := rapid.IntRange(6, 30).Draw(rt, "n")
 			style := rapid.SampledFrom([]string{"sparse", "dense", "chain", "dag+back", "dangling"}).Draw(rt, "style")
+			// job ids: j0..jN, or ids composed of the same few atoms with - and _ (ids that are prefixes,
+			// suffixes and concatenations of each other)
+			composed := rapid.Bool().Draw(rt, "composed-ids")
+			var ids, spare []string
+			if composed {
+				pool := rapid.Permutation(c18composed).Draw(rt, "idpool")
+				n = rapid.IntRange(3, 14).Draw(rt, "ncomposed")
+				ids, spare = pool[:n], pool[n:]
+			} else {
+				for i := 0; i < n; i++ {
+					ids = append(ids, fmt.Sprintf("j%d", i))
+				}
+			}
 			c := &needsCase{Needs: make([][]string, n), Scalar: make([]bool, n)}
 			for i := 0; i < n; i++ {
-				id := fmt.Sprintf("j%d", i)
+				id := ids[i]
 				if rapid.Bool().Draw(rt, "upper") {
 					id = strings.ToUpper(id)
 				}
 				c.Jobs = append(c.Jobs, id)
 			}
 			addEdge := func(i, j int) {
-				name := fmt.Sprintf("j%d", j)
+				name := ids[j]
 				if rapid.Bool().Draw(rt, "eu") {
 					name = strings.ToUpper(name)
 				}
@@ -450,7 +466,11 @@ func TestC18(t *testing.T) {
 				nd := rapid.IntRange(1, 3).Draw(rt, "nd")
 				for e := 0; e < nd; e++ {
 					i := rapid.IntRange(0, n-1).Draw(rt, "di")
-					c.Needs[i] = append(c.Needs[i], fmt.Sprintf("ghost%d", e))
+					ghost := fmt.Sprintf("ghost%d", e)
+					if composed {
+						ghost = spare[e]
+					}
+					c.Needs[i] = append(c.Needs[i], ghost)
 				}
 			}
 			for i := range c.Scalar {
